@@ -5,7 +5,7 @@
     the real [BackendMap] on every run. *)
 From Coq Require Import List Arith ZArith NArith Bool Lia.
 From Coq Require Import Znumtheory.
-From SV Require Import C12.Model C12.Proofs C12.Maglev.
+From SV Require Import C12.Model C12.Proofs C12.Maglev C12.Counters.
 Import ListNotations.
 Open Scope N_scope.
 
@@ -164,6 +164,30 @@ Proof.
   split; cbn [fst snd]; [assumption|]. rewrite Hs. discriminate.
 Qed.
 
+(** 6b. The same over whole histories of the model's operations and for every
+    backend object at once (also the ones removed from their list and possibly
+    re-added as a fresh object): [conn_effect] names the backend an operation
+    opens (+1: a granted [inc_connections], a successful [try_connect] directly or
+    through [backend_from_cluster_id] / [backend_from_sticky_session]) or closes
+    (-1: [dec_connections], [close_backend_connection]) a connection on; if
+    connections are only closed by somebody who holds one, then after every
+    history every backend's [active_connections] is exactly the number of
+    connections open on it (0 when its traffic has ended; configuration updates,
+    health results, failures, policy changes and selections never touch it), and a
+    [Closed] backend has none. *)
+Theorem counters_balance_history :
+  forall (ops : list op),
+    disciplined_h init (fun _ => 0) ops ->
+    let s := fst (run_g init (fun _ => 0) ops) in
+    let open := snd (run_g init (fun _ => 0) ops) in
+    forall h,
+      b_conns (hget (s_heap s) h) = open h /\
+      (b_status (hget (s_heap s) h) = Closed -> b_conns (hget (s_heap s) h) = 0).
+Proof.
+  intros ops D s open h.
+  exact (run_g_bal ops init (fun _ => 0) init_bal D h).
+Qed.
+
 Theorem closing_becomes_closed_exactly_at_zero :
   forall b, b_status b = Closing ->
     (b_status (fst (dec_connections b)) = Closed <-> b_conns (fst (dec_connections b)) = 0) /\
@@ -248,3 +272,16 @@ Example maglev_table_total_nonvacuous :
   m_table (maglev_rebuild [(0, (3, 5)); (1, (4, 9)); (2, (6, 2))] 7 [(0, 100); (1, 100); (2, 5)])
   = [Some 0; Some 1; Some 0; Some 0; Some 1; Some 1; Some 0]%nat.
 Proof. split; [apply prime_by_trial; [lia|vm_compute; reflexivity]|vm_compute; reflexivity]. Qed.
+
+Example counters_balance_history_nonvacuous :
+  let ops := [ OPolicy 0 KRr MConn 0; OAdd 0 0 0 None None false; OSelectConn 0 1; OConnect 0 1;
+               ORemove 0 0; OAdd 0 0 0 None None false; OSelectConn 0 1; ODec 0; OClosing 0; ODec 0 ] in
+  disciplined_h init (fun _ => 0) ops /\
+  let s := fst (run_g init (fun _ => 0) ops) in
+  b_conns (hget (s_heap s) 0) = 0 /\ b_status (hget (s_heap s) 0) = Closed /\
+  b_conns (hget (s_heap s) 1) = 1 /\ snd (run_g init (fun _ => 0) ops) 1%nat = 1.
+Proof.
+  split; [|vm_compute; repeat split].
+  cbn [disciplined_h]. repeat split; intros h H; vm_compute in H;
+    try discriminate; inversion H; subst; vm_compute; reflexivity.
+Qed.
